@@ -516,10 +516,6 @@ def check(run, repo, world):
 
     _check_write(run, repo, world, mod, sel)
     _check_value_to_raw(run, repo, world, mod)
-    # writing 'MASK' / 'TMASK' stores the patterns the metaclass built: the
-    # same construction rule as C11's (decided over the same probe classes)
-    from .C11 import _check_mask_form
-    _check_mask_form(run, repo)
 
 
 def _guard_text(n):
